@@ -51,3 +51,16 @@ check(
     'The scripted generator models choice/integers/shuffle/random only; bound to numpy by conformance replays.',
     'DESIGN.md 3/C11',
 )
+check(
+    'C12',
+    'bounded exhaustive enumeration of (state, action, next state) triples against per-component reference formulas; BFS edge oracle over shipped configurations',
+    'Every built-in reward and termination component (default and non-default parameters, called directly and through '
+    'factory(name, **kw)) is evaluated on every triple of (a) the E1 universe with next states produced by the real '
+    'full chain under every random outcome and (b) all ordered pairs of a small state universe x all actions, and '
+    'compared with an independent reference; determinism and no use of the rng argument are checked; reduce_sum / '
+    'reduce_any / reduce_all over all subsets of <=3 parts equal the sum/any/all of the parts; on every explored edge '
+    'of the shipped configurations the environment reward equals the sum of the reference components named in the '
+    'YAML, done equals the reference termination and the exit reward is paid exactly when exit-termination fires.',
+    'Documented preconditions honoured (exactly one target object for distance rewards, a beacon for the memory reward).',
+    'DESIGN.md 3/C12',
+)
